@@ -3,6 +3,7 @@ package main
 import (
 	"encoding/hex"
 	"math/rand"
+	"strings"
 )
 
 const defaultLimit = 10 * 1024 * 1024
@@ -433,6 +434,44 @@ func generate(rng *rand.Rand, tier string) []interface{} {
 		}
 		ins = append(ins, Input{Kind: "local", Tag: "fifo", Items: items})
 	}
+	// ---- N. type ids of the registered types (two of them differ only in the package) ------
+	ins = append(ins, Input{Kind: "typeids", Tag: "registered"})
+	for i := 0; i < 6*scale; i++ {
+		// the two namesakes on one connection, and through the decoder
+		level := []string{"conn", "router", "tcp"}[i%3]
+		items := []ItemSpec{msg(blob(3+rng.Intn(20), int64(i))), msg(&ValSpec{Type: "otherblob", Seed: int64(i), Size: 3}),
+			msg(blob(1+rng.Intn(9), int64(i+7))), msg(&ValSpec{Type: "otherblob", Seed: int64(i + 1), Size: 1})}
+		if level == "tcp" {
+			items = append(items, sentinel(i))
+		}
+		add(stream(level, "namesake-types", defaultLimit, items, randCuts(rng, wireLen(items))))
+		ins = append(ins, Input{Kind: "decode", Tag: "namesake-types", Payload: &PayloadSpec{Val: &ValSpec{Type: "otherblob", Seed: int64(i), Size: 5}}})
+	}
+
+	// ---- O. one process decoding with several suites, in both orders -------------------------
+	suiteStep := func(suite string, seed int64, level string) Input {
+		typ := "crypto"
+		if suite == "P256" {
+			typ = "cryptop256"
+		}
+		in := stream(level, "suite-"+suite, defaultLimit,
+			[]ItemSpec{msg(&ValSpec{Type: typ, Seed: seed, Size: 8}), msg(blob(4, seed)), msg(&ValSpec{Type: typ, Seed: seed + 1, Size: 8})}, cutStyle{every: 7})
+		in.Suite = suite
+		return in
+	}
+	for i, order := range [][]string{{"Ed25519", "P256", "Ed25519"}, {"P256", "Ed25519", "P256"}} {
+		var steps []Input
+		for j, su := range order {
+			steps = append(steps, suiteStep(su, int64(100*i+10*j), []string{"conn", "router"}[j%2]))
+			typ := "crypto"
+			if su == "P256" {
+				typ = "cryptop256"
+			}
+			steps = append(steps, Input{Kind: "decode", Tag: "suite-" + su, Suite: su, Payload: &PayloadSpec{Val: &ValSpec{Type: typ, Seed: int64(100*i + 10*j + 5), Size: 4}}})
+		}
+		ins = append(ins, Input{Kind: "seq", Tag: "suites-" + strings.ToLower(order[0]) + "-first", Steps: steps, Fresh: true})
+	}
+
 	// ---- M. in-memory connection with a backlog: the receiver's handler is busy ---------
 	for _, n := range []int{600, 1200} {
 		ins = append(ins, Input{Kind: "local", Tag: "backlog", Backlog: n})
